@@ -877,6 +877,7 @@ Lemma Ret_handle cmd st sc : scripts_tame sc ->
 Proof.
   intro H. unfold handle. destruct cmd; try solve [unfold ss_tame in *; rauto]; try solve [rauto].
   destruct (lookup _ _); [|apply Ret_fail].
+  destruct (negb _); [apply Ret_fail|].
   apply (Ret_bind (fun x => scripts_tame (snd x))); [apply Ret_on_execute; exact H|].
   intros [sd' sc'] Hx. apply Ret_ret. exact Hx.
 Qed.
@@ -926,6 +927,200 @@ Proof.
   rewrite E in H. exact H.
 Qed.
 
+(* ---- after ParamParser::validate no panic site is left for a tame shim ---- *)
+
+(* no panic allowed at all *)
+Definition np0 (p : site) : Prop := False.
+
+Lemma to_text_z v : RP np0 (to_text v).
+Proof. apply to_text_np. Qed.
+
+#[local] Hint Resolve to_text_z convert_tame to_bin_tame : znp.
+#[local] Hint Resolve W_ret W_fail W_log_call W_log_api W_set_seq W_park W_t_write W_t_flush
+  W_end_packet W_write_all W_flush W_send W_send_all W_finalize W_drop_q W_end_row
+  W_finish_inner W_drop_rw W_lapi W_ret_tag Forall_tl : zdb.
+
+Ltac zmatch :=
+  match goal with
+  | |- W np0 (match ?x with _ => _ end) =>
+      lazymatch type of x with
+      | res _ =>
+          let H := fresh "HR" in
+          assert (H : RP np0 x) by auto with znp; revert H; destruct x; intro H; cbn [RP] in H
+      | _ => first [destruct x eqn:? | destruct x]
+      end
+  end.
+Ltac zstep :=
+  first
+    [ assumption
+    | solve [auto 2 with zdb]
+    | lazymatch goal with |- W np0 (panic _) => apply W_panic; assumption end
+    | lazymatch goal with |- W np0 (attempt _) => apply W_attempt end
+    | lazymatch goal with |- W np0 (park_on_err _) => apply W_park_on_err end
+    | lazymatch goal with |- W np0 (bind _ _) => apply W_bind; [| intro; cbv beta] end
+    | match goal with H : context [W np0 _] |- _ => solve [apply H; auto 2 with zdb] end
+    | zmatch
+    | progress cbv beta zeta ].
+Ltac zauto := repeat zstep.
+
+Lemma W_write_err_z code msg : errtab code <> None -> W np0 (write_err errtab code msg).
+Proof. intro H. unfold write_err. destruct (errtab code) as [[c st]|]; [apply W_send | congruence]. Qed.
+Lemma W_write_col_z w v : value_tame v -> W np0 (write_col w v).
+Proof. intro H. unfold write_col. zauto. Qed.
+#[local] Hint Resolve W_write_err_z W_write_col_z : zdb.
+Lemma W_write_cols_z vs : forall w, Forall value_tame vs -> W np0 (write_cols w vs).
+Proof.
+  induction vs as [|v r IH]; intros w H; cbn [write_cols]; [apply W_ret|].
+  inversion H; subst. zauto.
+Qed.
+#[local] Hint Resolve W_write_cols_z : zdb.
+Lemma W_write_row_z w vs : Forall value_tame vs -> W np0 (write_row w vs).
+Proof. intro H. unfold write_row. zauto. Qed.
+#[local] Hint Resolve W_write_row_z : zdb.
+
+Lemma W_run_qr_z quiet :
+  (forall p q, tame_q p -> W np0 (run_q errtab quiet q p)) /\
+  (forall p w, tame_r p -> W np0 (run_r errtab quiet w p)).
+Proof.
+  apply qr_mutind; intros; cbn [run_q run_r]; cbn [tame_q tame_r] in *;
+    repeat match goal with H : _ /\ _ |- _ => destruct H end; zauto.
+Qed.
+Lemma W_run_q_z quiet q p : tame_q p -> W np0 (run_q errtab quiet q p).
+Proof. apply W_run_qr_z. Qed.
+#[local] Hint Resolve W_run_q_z : zdb.
+
+(* the shim's pulls are a prefix of the validated full pull: pull_params steps through the same
+   params_next calls as pull_all_ok, and may only stop earlier *)
+Lemma W_pull_params_z fuel : forall n convs p, Forall (fun k => k = KNone) convs ->
+  pull_all_ok fpext fuel p = true ->
+  W np0 (pull_params fpext fptrunc fuel n convs p).
+Proof.
+  induction fuel as [|f IH]; intros n convs p Hc Hv; cbn [pull_params]; [apply W_ret|].
+  cbn [pull_all_ok] in Hv.
+  assert (Hgen : W np0
+    (match params_next fpext p with
+     | RPanic site => panic site
+     | RErr e => fail e
+     | ROk (None, p') => ret p'
+     | ROk (Some (ct, v), p') =>
+         log_call (CParam ct v) ;;;
+         (match convert fptrunc (match convs with [] => KNone | k :: _ => k end) v with
+          | RPanic site => panic site
+          | RErr e => fail e
+          | ROk None => ret tt
+          | ROk (Some r) => log_call (CConv r)
+          end) ;;;
+         pull_params fpext fptrunc f (match n with Some (S m) => Some m | _ => None end)
+           (tl convs) p'
+     end)).
+  { destruct (params_next fpext p) as [[[[ct v]|] p']|e|s].
+    - apply W_bind; [apply W_log_call | intros _].
+      apply W_bind; [| intros _; apply IH; [apply Forall_tl; exact Hc | exact Hv]].
+      pose proof (convert_tame np0 convs v Hc) as HR. revert HR.
+      destruct (convert fptrunc _ v) as [[r|]|e|s]; intro HR; cbn [RP] in HR.
+      + apply W_log_call.
+      + apply W_ret.
+      + apply W_fail.
+      + destruct HR.
+    - apply W_ret.
+    - apply W_fail.
+    - discriminate Hv. }
+  destruct n as [[|m]|]; [apply W_ret | exact Hgen | exact Hgen].
+Qed.
+
+(* callbacks under tame scripts *)
+Lemma W_on_query_z q st sc : scripts_tame sc -> W np0 (on_query errtab q (st, sc)).
+Proof.
+  intro H. unfold on_query. destruct (pop_q_tame sc H) as [H1 _].
+  destruct (pop_q sc) as [[prog tag] sc']. cbn [fst] in H1. zauto.
+Qed.
+Lemma W_on_init_z schema st sc : scripts_tame sc -> W np0 (on_init errtab schema (st, sc)).
+Proof.
+  intro H. unfold on_init. destruct (pop_i_tame sc H) as [H1 _].
+  destruct (pop_i sc) as [[prog tag] sc']. cbn [fst] in H1.
+  apply W_bind; [apply W_log_call | intro].
+  apply W_bind; [| intro; zauto].
+  destruct prog; zauto; apply W_api_ret; zauto.
+Qed.
+Lemma W_on_prepare_z q st sc : scripts_tame sc -> W np0 (on_prepare errtab q (st, sc)).
+Proof.
+  intro H. unfold on_prepare. destruct (pop_p_tame sc H) as [H1 _].
+  destruct (pop_p sc) as [[prog tag] sc']. cbn [fst] in H1.
+  apply W_bind; [apply W_log_call | intro].
+  destruct prog; zauto; apply W_api_ret; zauto.
+Qed.
+(* on_execute pulls from the very state (pstate_of) and with the very fuel params_valid checked *)
+Lemma W_on_execute_z id sd params sc : scripts_tame sc -> params_valid fpext sd params = true ->
+  W np0 (on_execute fpext fptrunc errtab id sd params sc).
+Proof.
+  intros H Hv. unfold on_execute. destruct (pop_x_tame sc H) as (H1 & H2 & _).
+  destruct (pop_x sc) as [x sc']. cbn [fst] in H1, H2.
+  apply W_bind; [apply W_log_call | intros _]. cbv zeta.
+  apply W_bind; [apply W_pull_params_z; [exact H2 | exact Hv] | intro p].
+  zauto.
+Qed.
+#[local] Hint Resolve W_on_query_z W_on_init_z W_on_prepare_z : zdb.
+
+Lemma W_handle_z cmd st sc : scripts_tame sc -> W np0 (handle fpext fptrunc errtab cmd (st, sc)).
+Proof.
+  intro H. unfold handle. destruct cmd; try solve [zauto].
+  - destruct (_ || _); [|zauto].
+    apply W_bind; [|intro; apply W_ret].
+    destruct (bytes_eqb _ _); apply W_run_q_z; cbn [tame_q tame_r].
+    + split; [constructor; [exact I | constructor] | exact I].
+    + exact I.
+  - destruct (lookup _ _) as [sd|]; [|apply W_fail].
+    destruct (params_valid fpext sd _) eqn:Ev; cbn [negb]; [|apply W_fail].
+    apply W_bind; [apply W_on_execute_z; assumption | intros [sd' sc']; apply W_ret].
+Qed.
+
+Lemma SF_bind_W_ret_z n {A B} (Q : A -> Prop) (m : M A) (f : A -> M B) :
+  W np0 m -> Ret Q m -> (forall a, Q a -> SF np0 n (f a)) -> SF np0 n (bind m f).
+Proof.
+  intros Hm Hr Hf s Hs. unfold bind. destruct (Hm s) as [H1 H2]. specialize (Hr s).
+  destruct (m s) as [[a|e|p] s']; cbn [fst snd] in *; [|exact I|exact H1].
+  apply Hf; [apply Hr; reflexivity | lia].
+Qed.
+
+Lemma run_f_safe_z fuel : forall st sc n, scripts_tame sc -> (n < fuel)%nat ->
+  SF np0 n (run_f fpext fptrunc errtab fuel (st, sc)).
+Proof.
+  induction fuel as [|f IH]; intros st sc n Ht Hlt; [lia|].
+  cbn [run_f]. apply (SF_bind_next np0).
+  - apply SF_W, W_ret.
+  - intros [q pkt] m Hm. apply SF_bind_W; [apply W_set_seq | intros _].
+    destruct (parse pkt) as [cmd|]; [|apply SF_W, W_fail].
+    assert (Hgen : SF np0 m (s' <- handle fpext fptrunc errtab cmd (st, sc) ;;
+                             flush ;;; run_f fpext fptrunc errtab f s')).
+    { apply (SF_bind_W_ret_z m ss_tame);
+        [apply W_handle_z; exact Ht | apply Ret_handle; exact Ht | intros [st' sc'] Hr].
+      apply SF_bind_W; [apply W_flush | intros _]. apply IH; [exact Hr | lia]. }
+    destruct cmd; try exact Hgen. apply SF_W, W_ret.
+Qed.
+
+Lemma NI_init_z cfg : errtab 1045 <> None -> NI np0 (init errtab cfg).
+Proof.
+  intro H. unfold init.
+  apply NI_bind; [apply W_NI, W_write_all | intros _].
+  apply NI_bind; [apply W_NI, W_flush | intros _].
+  apply NI_bind; [apply (NI_next np0) | intros r].
+  apply W_NI. destruct (errtab 1045) as [[c state]|]; [|congruence]. zauto.
+Qed.
+
+(* after validation the parameter iterator cannot panic: on_execute's pulls are a prefix of the
+   validated full pull *)
+Theorem run_on_never_panics_tame cfg sc s p :
+  scripts_tame sc ->
+  fst (run_on fpext fptrunc errtab cfg sc s) <> RPanic p.
+Proof.
+  intros Ht E.
+  assert (H : RP np0 (fst (run_on fpext fptrunc errtab cfg sc s))).
+  { unfold run_on, bind. destruct (NI_init_z cfg (proj1 Ht) s) as [H1 H2].
+    destruct (init errtab cfg s) as [[a|e|p'] s']; cbn [fst snd] in *; [|exact I|exact H1].
+    apply (run_f_safe_z (S (ilen s)) [] sc (ilen s') Ht); lia. }
+  rewrite E in H. exact H.
+Qed.
+
 End WithOracles.
 
 Print Assumptions run_on_total.
@@ -939,3 +1134,4 @@ Print Assumptions run_q_total.
 Print Assumptions handle_total.
 Print Assumptions run_total.
 Print Assumptions run_on_panics_tame.
+Print Assumptions run_on_never_panics_tame.
